@@ -190,6 +190,7 @@ func c16Lifetimes(c *Ctx, fn *ssa.Function, fields []string) {
 }
 
 func runC16(c *Ctx) {
+	c16Advertised(c)
 	if f := c.needMethod("R-C16-1", "internal/plugin", "Prefix", "lifetimes"); f != nil {
 		c16Lifetimes(c, f, []string{"ValidLifetime", "PreferredLifetime"})
 	}
@@ -288,5 +289,57 @@ func runC16(c *Ctx) {
 		}
 		c.R.Check(bad == "" && nOK >= 1, "R-C16-3", c.fname(f)+":deprecated-implies-finite", c.fname(f), c.pos(f.Pos()), fmt.Sprintf("%d accepted deprecated path×field combination(s) proven finite; %s", nOK, bad),
 			"every accepted deprecated stanza has lifetimes != ndp.Infinity", "a deprecated stanza with an infinite lifetime never counts down")
+	}
+}
+
+// c16Advertised (R-C16-4): the lifetimes written into the options are the
+// counted-down ones on every path of Apply (static and wildcard): a Route
+// Information option carries r.lifetime(), a Prefix Information option
+// p.lifetimes() #0 / #1 — never the configured constants.
+func c16Advertised(c *Ctx) {
+	for _, spec := range []struct {
+		typ, opt string
+		want     map[string][2]string // field ⇐ (method, result index or "")
+	}{
+		{"Route", "RouteInformation", map[string][2]string{"RouteLifetime": {"lifetime", ""}}},
+		{"Prefix", "PrefixInformation", map[string][2]string{"ValidLifetime": {"lifetimes", "0"}, "PreferredLifetime": {"lifetimes", "1"}}},
+	} {
+		ap := c.needMethod("R-C16-4", "internal/plugin", spec.typ, "Apply")
+		inner := c.P.Method("internal/plugin", spec.typ, "apply")
+		if ap == nil {
+			continue
+		}
+		fn := c.fname(ap)
+		n := 0
+		ps := c.pathsO("R-C16-4", ap, an.PathOpts{EmitCut: true, InlinePaths: func(g *ssa.Function) bool { return g == inner || c.helperInline(ap)(g) }})
+		for _, p := range ps {
+			p.Instrs(func(in ssa.Instruction) {
+				st, ok := in.(*ssa.Store)
+				if !ok {
+					return
+				}
+				fa, ok := st.Addr.(*ssa.FieldAddr)
+				if !ok {
+					return
+				}
+				pkg, typ, fld := an.FieldAddrName(fa)
+				w, watched := spec.want[fld]
+				if !watched || typ != spec.opt || !strings.HasSuffix(pkg, "ndp") {
+					return
+				}
+				n++
+				e := p.Of(st.Val)
+				b, idx := stripExtract(e)
+				ok2 := false
+				if w[1] == "" {
+					ok2 = exprCallIs(e, PkgPlugin, spec.typ, w[0])
+				} else {
+					ok2 = exprCallIs(b, PkgPlugin, spec.typ, w[0]) && fmt.Sprint(idx) == w[1]
+				}
+				c.R.Check(ok2, "R-C16-4", fmt.Sprintf("%s:%s.%s@%s", fn, spec.opt, fld, lastAtomName(p)), fn, c.pos(st.Pos()), fmt.Sprintf("%s ⇐ %s", fld, e),
+					fmt.Sprintf("the result of %s.%s() for this RA", spec.typ, w[0]), "a deprecated prefix/route is advertised with its configured lifetime instead of the remaining one on this path")
+			})
+		}
+		c.R.Check(n >= 1, "R-C16-4", fn+":lifetime-stores", fn, c.pos(ap.Pos()), fmt.Sprintf("%d lifetime store(s) on enumerated paths", n), ">= 1", "anchor-missing")
 	}
 }
